@@ -16,6 +16,12 @@ for m in re.finditer(r'^\s*(PASS|FAIL|TIMEOUT|SIGABRT|SIGSEGV|LEAK|FLAKY[^\[]*|A
         res[key] = st
     else:
         pass
+if not any(v == 'PASS' for v in res.values()) and re.search(r'Summary \[.*\] *\d+ tests run: *\d+ passed', log):
+    # profile that prints failures only: every stable test not reported as failed has passed
+    # (the summary line gives the totals)
+    print(re.search(r'Summary \[.*', log).group(0).strip())
+    for t in stable:
+        res.setdefault(t, 'PASS')
 want = [t for t in stable if not pref or any(t.startswith(p + '::') for p in pref)]
 bad = [(t, res.get(t, 'NOT-RUN')) for t in want if res.get(t) != 'PASS']
 print(f'stable tests considered: {len(want)}; passed: {len(want) - len(bad)}; not passed: {len(bad)}')
